@@ -49,6 +49,20 @@ def par_prog(kind, n_each, summary, parent_big=True, no_config=False):
     return {"name": f"{kind}[2x{n_each};summary={meta['batch'][2]}]", "meta": meta, "seq": [op] + TAIL}
 
 
+def policy_prog(kind, cfgname):
+    """Oversized batch results under completion policies that tolerate failures or complete early:
+    the replay must rebuild the same BatchResult, completion reason included."""
+    big = [{"k": "step", "fn": {"bytes": 150_000}}]
+    fail = [{"k": "step", "fn": {"raise": "Boom", "msg": "item-fails"}, "retry": "none"}]
+    slow = [{"k": "step", "fn": {"sleep": 3, "then": {"bytes": 10}}}]
+    cfgs = {"tol1": ({"tol_n": 1}, [big, fail, big]), "pct50": ({"tol_pct": 50}, [big, fail, big]),
+            "min2": ({"min": 2}, [big, big, slow]), "min2tol1": ({"min": 2, "tol_n": 1}, [fail, big, big]),
+            "first": ({"cc": "first"}, [[{"k": "step", "fn": {"bytes": 300_000}}], slow])}
+    cfg, branches = cfgs[cfgname]
+    op = {"k": "par", "branches": branches, "cfg": dict(cfg)}
+    return {"name": f"par[{cfgname};oversized]", "meta": {"policy": [[1]]}, "seq": [op] + TAIL}
+
+
 def handler_prog(target, err=False):
     ret = {"raise": "Boom", "pad_to": target} if err else {"pad_to": target}
     return {"name": f"handler[{'error' if err else 'result'}={target - RESP_SDK:+d}]",
@@ -70,6 +84,8 @@ def programs(tier):
         out.append(par_prog(kind, 300_000, "default"))
         out.append(par_prog(kind, 300_000, None, no_config=True))
         out.append(par_prog(kind, 140_000, None, no_config=True))
+    for cfgname in ("tol1", "pct50", "min2", "min2tol1", "first"):
+        out.append(policy_prog("par", cfgname))
     for target in (RESP_SDK - 1, RESP_SDK, RESP_SDK + 1, RESP_HARD + 1):
         out.append(handler_prog(target, False))
     for target in (RESP_SDK - 1, RESP_SDK + 1, RESP_HARD + 1):
@@ -137,6 +153,8 @@ def judge(d, _=None):
                     ok = False
                 if not ok:
                     V(out, "C16", "oversized-result-payload-is-not-the-summary", f"{d.program['name']}: payload {pl[:120]!r}", summary="default")
+    if "policy" in meta:
+        out.extend(_replays(d, tuple(meta["policy"][0])))
     if "handler" in meta:
         target, err = meta["handler"]
         last = d.invocations[-1]
